@@ -57,8 +57,32 @@ def parse_out(line):
     res = []
     for tok in line.split():
         o, _, m = tok.partition("=")
-        res.append((o, m.rstrip(";")))
+        res.append((o, m.split(";")[0]))
     return res
+
+
+def frozen_parts(line):
+    """the printed original of the last copy after each op ('' when none)"""
+    out = []
+    for tok in line.split():
+        _, _, f = tok.partition("~")
+        out.append(f.rstrip(";") if "~" in tok else None)
+    return out
+
+
+def independence_verdict(ops, implline):
+    """copying yields an independent map: the original never changes afterwards"""
+    outs = parse_out(implline)
+    fr = frozen_parts(implline)
+    want = None
+    prev = ""
+    for op, (o, m), f in zip(ops, outs, fr):
+        if o == "C1":
+            want = prev
+        if want is not None and f != want:
+            return "the original of a copied map changed after the copy: %s, expected %s" % (f, want)
+        prev = m
+    return None
 
 
 def boundaries(mapstr):
@@ -164,7 +188,8 @@ def spec_verdicts(run, ops, implline):
     sl = spec_lines(ops, outs)
     cf = run.casefile("map-spec.txt", sl)
     res = core.run_model("map-spec", cf)
-    return [r for r in res if r != "ok"]
+    iv = independence_verdict(ops, implline)
+    return [r for r in res if r != "ok"] + ([iv] if iv else [])
 
 
 def compare(run, exe, cases, model, impl, crashes):
@@ -185,6 +210,11 @@ def compare(run, exe, cases, model, impl, crashes):
         if v != "ok":
             spec_bad.setdefault(idx[j], v)
     run.count("spec-steps-checked", len(all_spec))
+    for i, ops in enumerate(cases):
+        if i < len(impl) and i not in spec_bad:
+            iv = independence_verdict(ops, impl[i])
+            if iv:
+                spec_bad[i] = iv
     # 2. model vs implementation
     bad = core.diff_lines(model, impl)
     for i, ops in enumerate(cases):
